@@ -1,7 +1,7 @@
 #!/bin/bash
 # usage: trymut.sh <patch.diff> <Cxx> [more Cxx...] : apply a patch to a scratch worktree of /repo HEAD and run the checks against it
 set -u
-patch="$1"; shift
+patch="$(realpath "$1")"; shift
 wt=/tmp/wt
 if [ ! -d $wt ]; then git -C /repo worktree add --detach $wt HEAD >/dev/null 2>&1; fi
 git -C $wt checkout -q --detach "$(git -C /repo rev-parse HEAD)" 2>/dev/null
